@@ -7,7 +7,8 @@ EXPLANATION = ("C14: (R1) the function-map decoder's running state (column reset
                "lookup key (original line + 1, original column) agrees with the order of the offsets, name read with get; "
                "(R3) bytecode-offset and DecodedMap plumbing; (R4) raw metadata retained, re-emitted and permuted on rewrite; "
                "(R5) panic-freedom."
-               " (R6) decode_hermes hands the raw map to decode_regular as parsed; (R7) kind dispatch.")
+               " (R6) decode_hermes hands the raw map to decode_regular as parsed; (R7) kind dispatch."
+               " (R8) the encoder drops only exact duplicate tokens, so the Hermes function-map permutation indexes the sources actually written.")
 NOT_DECIDED = "agreement with Metro's consumer on all metadata strings (value-level)."
 
 RULES = {
